@@ -621,6 +621,15 @@ func c03Directed(c *harness.Ctx) {
 					} else if subset%3 == 2 {
 						rev = roles[1:]
 					}
+					// the revocation list may name a role the account does not hold, before the others
+					if subset%2 == 0 {
+						for b := 0; b < 7; b++ {
+							if subset&(1<<uint(b)) == 0 {
+								rev = append([]string{gen.AllRoles[b]}, rev...)
+								break
+							}
+						}
+					}
 					gen.Must(u.UnsetRoles(B, s.F1, rev...), "multi unset F1")
 					gen.Must(u.UnsetRoles(B, s.SFT, rev...), "multi unset SFT")
 					for _, o := range ops {
